@@ -11,7 +11,7 @@ gm = open(repo + '/go.mod').read()
 gm2, n = re.subn(r'(?m)^go\s+\d+\.\d+(\.\d+)?\s*$', 'go 1.21', gm)
 if n != 1:
     gm2 = gm + '\ngo 1.21\n'
-tmp = V + '/build/repo.go.mod.tmp'
+tmp = V + '/build/repo.go.mod.tmp%d' % os.getpid()
 dst = V + '/build/repo.go.mod'
 if not os.path.exists(dst) or open(dst).read() != gm2:
     open(tmp, 'w').write(gm2); os.replace(tmp, dst)
@@ -28,4 +28,4 @@ ov = {'Replace': {
 s = json.dumps(ov, indent=1)
 p = V + '/build/overlay.json'
 if not os.path.exists(p) or open(p).read() != s:
-    open(p + '.tmp', 'w').write(s); os.replace(p + '.tmp', p)
+    t = p + '.tmp%d' % os.getpid(); open(t, 'w').write(s); os.replace(t, p)
